@@ -97,12 +97,12 @@ pub(crate) struct SortedAction {
 	pub(crate) quit: Option<crate::action::QuitManner>,
 }
 
-pub(crate) fn sort_action(action: crate::action::ActionHandler) -> SortedAction {
-	let mut new: Vec<_> = action.new.into_iter().collect();
+pub(crate) fn sort_action(mut action: crate::action::ActionHandler) -> SortedAction {
+	let mut new: Vec<_> = std::mem::take(&mut action.new).into_iter().collect();
 	new.sort_by_key(|(id, _)| id.verif_order());
 	SortedAction {
 		new,
-		quit: action.quit,
+		quit: action.quit.take(),
 	}
 }
 
